@@ -604,7 +604,7 @@ FINDING_IDS = {
     "nil-through-type-test": "F13c01", "failed-match-binder": "F74", "tail-branch-never": "F66",
     "unify-recursive-tail": "F67", "partial-position": "F68", "implicit-nil-application": "F58",
     "star-partial-nil-binder": "F80", "typevar-capture": "F81",
-    "dead-chain-complement": "F86", "scalar-member-field-access": "F88", "foreign-case-table": "F92",
+    "dead-chain-complement": "F86", "scalar-member-field-access": "F88",
     "union-widening-dropped": "F83",
 }
 
@@ -654,7 +654,6 @@ class Classifier:
                          ("typevar-capture", self.sig_typevar_capture),
                          ("unify-recursive-tail", self.sig_unify_cycle),
                          ("union-widening-dropped", self.sig_union_widening),
-                         ("foreign-case-table", self.sig_foreign_case_table),
                          ("tail-branch-never", self.sig_tail_never),
                          ("recursive-binder", self.sig_f59), ("union-to-generic", self.sig_f2),
                          ("implicit-nil-application", self.sig_f58),
@@ -756,29 +755,6 @@ class Classifier:
                 variants.append(src[:m.start()] + lit + src[m.end():])
         recs = self.outcomes(variants, mods)
         return any(r["status"] == "accepted" and not r["failure"] for r in recs)
-
-    # ---- foreign-case-table (F92): a call whose callee is not a statically known function takes the
-    # dispatch case table registered for the callee's CALLABLE TYPE; a function with no table of
-    # its own (its dispatch was abandoned) that shares its type with a dispatch function is then
-    # specialised by that other function's table (`nm = #'opt { | =[] => [] | =S[_] => [] | ='int => $ }`,
-    # `rd = #'opt { | =[] => [] | 1 =f => 5 }`, `S[5] rd` is typed [] - std: %num round / sign on a Surd
-    # reached through the module record). Signature: the judgement rejects although the value
-    # inhabits the DECLARED result type of a function of the program (the call site's type is
-    # narrower than the callee's), no never-typed call, and - the mechanism needs two functions of
-    # one callable type - the program holds at least two function literals with the same
-    # parameter text, one of them a dispatch block.
-    def sig_foreign_case_table(self, src, mods, failure):
-        if failure.get("kind") != "result-not-in-inferred-type" or not failure.get("fnres") or failure.get("nevertop"):
-            return False
-        s0 = strip_strings(src)
-        heads = re.findall(r"#([^{}\n]*?)\s*\{(\s*\|)?", s0)
-        by_param = {}
-        for param, disp in heads:
-            key = re.sub(r"\s+", "", param)
-            if not key or key.startswith("<"):
-                continue
-            by_param.setdefault(key, []).append(bool(disp))
-        return any(len(v) >= 2 and any(v) for v in by_param.values())
 
     # ---- tail-branch-never: the call site's result type drops the contribution of a branch ending
     # in a self tail call `^`. Signature: the program has a bare self tail call, the judgement
